@@ -185,6 +185,11 @@ func c19Run(r *Run, reg string, depth, shard, shards int) {
 					next = ViewOf(w) // outside what C19 states (e.g. threshold rules): follow the implementation
 				}
 			}
+			// C19 is about the registries; roles, flags and scalars are compared with the
+			// implementation's own export (two read paths must agree), not with a prediction
+			cur := ViewOf(w)
+			next.Owner, next.AttMgr, next.Pauser, next.TokenCtl, next.Pending, next.HasPending = cur.Owner, cur.AttMgr, cur.Pauser, cur.TokenCtl, cur.Pending, cur.HasPending
+			next.BurnPaused, next.SendPaused, next.MaxBody, next.NextNonce, next.Threshold, next.HasThreshold = cur.BurnPaused, cur.SendPaused, cur.MaxBody, cur.NextNonce, cur.Threshold, cur.HasThreshold
 			post.Model = next
 			if errs := CheckQueries(w, next, u); len(errs) > 0 {
 				r.Violate("C19 queries disagree with the history: "+firstWords(errs[0], 3),
@@ -244,6 +249,17 @@ func joinMax(xs []string, n int) string {
 // removals of missing entries are rejected. Whether a threshold update, a disable that
 // would break the quorum, or a user flow is accepted is the subject of other properties.
 func c19Enforced(p Pred) bool {
+	if p.Exp == MustFail {
+		registryReason := false
+		for _, c := range p.Conds {
+			if !c.OK && c.Name != "submitter holds the role" {
+				registryReason = true
+			}
+		}
+		if !registryReason {
+			return false // who may submit is C10's subject
+		}
+	}
 	switch p.Kind {
 	case "LinkTokenPair", "UnlinkTokenPair", "AddRemoteTokenMessenger", "RemoveRemoteTokenMessenger", "EnableAttester", "SetMaxBurnAmountPerMessage":
 		return true
